@@ -4,6 +4,7 @@
 //	c10 corr   -out DIR -n N            cases.txt + impl.txt (walk, acceptor, protocol traces)
 //	c10 oracle -out DIR -n N -corpus D  oracle.jsonl (failures + summary)
 //	c10 replay FILE                     re-run one case (evidence/replays/*.json or corpus/C10/*.json)
+//	c10 mergecorr -out DIR -n N         phase 2: forced-arrival runs against the MergeDir-over-Merge model (mergecorr.go)
 package main
 
 import (
@@ -63,6 +64,8 @@ func main() {
 		oracle(os.Args[2:])
 	case "replay":
 		replay(os.Args[2:])
+	case "mergecorr":
+		mergecorr(os.Args[2:])
 	default:
 		fmt.Fprintln(os.Stderr, "unknown mode")
 		cleanup()
@@ -88,6 +91,7 @@ type Case struct {
 	MaxDollar   int64             `json:"maxDollar,omitempty"`
 	ReleaseSeed uint64            `json:"releaseSeed"`
 	Note        string            `json:"note,omitempty"`
+	Forced      bool              `json:"forced,omitempty"` // phase 2: arrival order at the merger forced through AcceptFile (mergecorr.go)
 }
 
 const watchdog = 25 * time.Second
@@ -1028,6 +1032,9 @@ func replay(args []string) {
 	}
 	fmt.Printf("case: dir=%q sub=%v workers=%d optsExt=%q nilAccept=%v maxLines=%d\nwalk (spec): %v\n", c.Dir, c.Sub, c.Workers, c.OptsExt, c.NilAccept, c.MaxLines, c.specWalk())
 	bad := 0
+	if c.Forced {
+		bad += replayForced(c)
+	}
 	for i := 0; i < 5; i++ { // a few release orders
 		v := evaluate(c)
 		fmt.Printf("run %d: result=%s accepted=%d unparseable=%d overlap=%d\n", i, v.Result, v.Accepted, v.Bad, v.Overlap)
